@@ -38,7 +38,8 @@ ASSUMPTIONS = [
     "float128 (x87 padding bytes are not data) and bool are excluded; str on "
     "npz and bytes/str on fb are not supported declarations",
     "narrower-dtype presentations: expected value = numpy's own safe cast of "
-    "the narrow array to the declared dtype",
+    "the narrow array to the declared dtype; a NaN that is widened only has "
+    "to stay a NaN (its payload after a conversion is not defined)",
 ]
 
 DT = {
@@ -270,6 +271,19 @@ def compare(ctx, desc, fmt, attr, got, want: bytes, iface, what):
                             f"{what}: declared {declared} got {g.dtype}")
         gb = np.array(g, order="C").astype(
             declared.newbyteorder("<")).tobytes()
+    if gb != want and attr.get("present") == "narrow" and declared.kind == "f":
+        # a NaN that went through a WIDENING conversion has no defined payload
+        # (numpy and TensorFlow map it differently): NaN-ness must survive,
+        # every other element must be bit-identical
+        w_arr = np.frombuffer(want, dtype=declared.newbyteorder("<"))
+        g_arr = np.frombuffer(gb, dtype=declared.newbyteorder("<"))
+        nan = np.isnan(w_arr)
+        if (np.isnan(g_arr) == nan).all():
+            it = declared.itemsize
+            wb = np.frombuffer(want, dtype=f"V{it}")
+            gb2 = np.frombuffer(gb, dtype=f"V{it}")
+            if (wb[~nan] == gb2[~nan]).all():
+                return False
     if gb != want:
         if fmt == "tfrec" and dtype == "float32":
             w = np.frombuffer(want, dtype="<u4")
